@@ -291,6 +291,46 @@ func fileErrors(c *engine.Ctx) {
 			try("ccache", m, map[string]interface{}{"offset": i, "value": v})
 		}
 	}
+	// the other file shapes: every version, and version 4 with the header MIT always writes (KDC time offset field);
+	// two credentials with marker keys each; every value of every byte of the version-4 header
+	for version := 1; version <= 4; version++ {
+		for _, hdr := range [][]ccachefmt.HeaderField{nil, {{Tag: 1, Data: []byte{0, 0, 0, 0, 0, 0, 0, 0}}}, {{Tag: 1, Data: []byte{0xff, 0xff, 0xff, 0xfe, 0, 0, 0, 9}}, {Tag: 2, Data: []byte{1, 2, 3}}}} {
+			if hdr != nil && version != 4 {
+				continue
+			}
+			k1, k2 := w.RandKey(18), w.RandKey(17)
+			secrets = append(secrets, newKeySecret("ccache session key", k1), newKeySecret("ccache session key", k2))
+			f := ccacheFile(version, hdr, k1, k2)
+			what := func(m map[string]interface{}) map[string]interface{} {
+				m["version"], m["header_fields"] = version, len(hdr)
+				return m
+			}
+			for i := 0; i <= len(f); i++ {
+				try("ccache", f[:i], what(map[string]interface{}{"truncate_to": i}))
+			}
+			hdrEnd := 2
+			if version == 4 {
+				hdrEnd = 4 + int(f[2])<<8 + int(f[3])
+			}
+			for i := 0; i < len(f); i++ {
+				vals := []byte{0x00, 0x01, 0x7f, 0x80, 0xff, f[i] + 1, f[i] - 1}
+				if i < hdrEnd {
+					vals = vals[:0]
+					for v := 0; v < 256; v++ {
+						vals = append(vals, byte(v))
+					}
+				}
+				for _, v := range vals {
+					if v == f[i] {
+						continue
+					}
+					m := append([]byte{}, f...)
+					m[i] = v
+					try("ccache", m, what(map[string]interface{}{"offset": i, "value": v}))
+				}
+			}
+		}
+	}
 	c.Add("evaluations", n)
 	c.Cov["file_inputs"] = n
 }
@@ -299,6 +339,17 @@ func ccacheWith(key []byte) []byte {
 	pr := ccachefmt.Principal{NameType: 1, Realm: "TEST.GOKRB5", Components: []string{"user1"}}
 	sv := ccachefmt.Principal{NameType: 2, Realm: "TEST.GOKRB5", Components: []string{"krbtgt", "TEST.GOKRB5"}}
 	f := ccachefmt.CCache{Version: 4, Default: pr, Creds: []ccachefmt.Credential{{Client: pr, Server: sv, KeyType: 18, Key: key, AuthTime: 1000, StartTime: 1000, EndTime: 90000, RenewTill: 0, Flags: 0x40e00000, Ticket: bytes.Repeat([]byte{0x61}, 40)}}}
+	return ccachefmt.Write(f)
+}
+
+func ccacheFile(version int, hdr []ccachefmt.HeaderField, k1, k2 []byte) []byte {
+	pr := ccachefmt.Principal{NameType: 1, Realm: "TEST.GOKRB5", Components: []string{"user1"}}
+	sv := ccachefmt.Principal{NameType: 2, Realm: "TEST.GOKRB5", Components: []string{"krbtgt", "TEST.GOKRB5"}}
+	s2 := ccachefmt.Principal{NameType: 2, Realm: "TEST.GOKRB5", Components: []string{"HTTP", "host.test.gokrb5"}}
+	f := ccachefmt.CCache{Version: version, Header: hdr, Default: pr, Creds: []ccachefmt.Credential{
+		{Client: pr, Server: sv, KeyType: 18, Key: k1, AuthTime: 1000, StartTime: 1000, EndTime: 90000, RenewTill: 0, Flags: 0x40e00000, Ticket: bytes.Repeat([]byte{0x61}, 40)},
+		{Client: pr, Server: s2, KeyType: 17, Key: k2, AuthTime: 1000, StartTime: 1500, EndTime: 80000, RenewTill: 100000, Flags: 0x40a00000,
+			Addresses: []ccachefmt.Address{{Type: 2, Data: []byte{10, 0, 0, 1}}}, AuthData: []ccachefmt.AuthData{{Type: 1, Data: []byte("ad")}}, Ticket: bytes.Repeat([]byte{0x61}, 48)}}}
 	return ccachefmt.Write(f)
 }
 
